@@ -2169,7 +2169,11 @@ sefoEqualMods(Sefo sefo)
 			sefo = sefo->abDeclare.type;
 			break;
 		case AB_Test: {
-			if (tfEqual(abTUnique(sefo), tfBoolean))
+			/* The type union holds a TPoss, not a TForm, until the
+			 * node has a unique type (conditions are also recorded
+			 * during the bottom-up pass). */
+			if (abState(sefo) == AB_State_HasUnique &&
+			    tfEqual(abTUnique(sefo), tfBoolean))
 				sefo = sefo->abTest.cond;
 			else
 				changed = false;
